@@ -34,15 +34,18 @@ func NewIterator(roiName dvid.InstanceName, versionID dvid.VersionID, b dvid.Bou
 		return nil, fmt.Errorf("Data name %q was not of roi data type\n", roiName)
 	}
 
-	// Convert voxel extents to block Z extents
-	minPt := b.StartPoint().(dvid.Chunkable)
-	maxPt := b.EndPoint().(dvid.Chunkable)
+	// Convert voxel extents to block Z extents.  Without bounds the whole ROI is used.
+	minIndex, maxIndex := minIndexRLE, maxIndexRLE
+	if b != nil {
+		minPt := b.StartPoint().(dvid.Chunkable)
+		maxPt := b.EndPoint().(dvid.Chunkable)
 
-	minBlockCoord := minPt.Chunk(data.BlockSize)
-	maxBlockCoord := maxPt.Chunk(data.BlockSize)
+		minBlockCoord := minPt.Chunk(data.BlockSize)
+		maxBlockCoord := maxPt.Chunk(data.BlockSize)
 
-	minIndex := minIndexByBlockZ(minBlockCoord.Value(2))
-	maxIndex := maxIndexByBlockZ(maxBlockCoord.Value(2))
+		minIndex = minIndexByBlockZ(minBlockCoord.Value(2))
+		maxIndex = maxIndexByBlockZ(maxBlockCoord.Value(2))
+	}
 
 	ctx := datastore.NewVersionedCtx(data, versionID)
 	it := new(Iterator)
